@@ -4,6 +4,7 @@ import struct
 
 from vlib import core
 from harness import common
+from harness import C26 as L26
 
 RECLENS = [1, 2, 2, 3, 4, 5, 7, 8, 8, 16, 31, 32, 64, 127, 128, 128]
 BAD_POS = [0, -1, 2 ** 25 + 3, 2 ** 25 + 4, 2 ** 25 + 100, 2 ** 26, -40000]
@@ -85,6 +86,121 @@ def decode(out, ops):
     return res, fin
 
 
+def sh_stmt(op):
+    """BASIC text of an operation of a shared-file case (file names F1/F2 as in C26)."""
+    k = op[0]
+    if k == 'sopen':
+        _, nm, n, acc, lock, reclen = op
+        return L26.stmt(['open', nm, n, 'R', acc, lock, reclen, False])
+    if k in ('close', 'lock', 'unlock'):
+        return L26.stmt(op)
+    if k == 'field':
+        return describe_op(op)
+    if k in ('put', 'get'):
+        return L26.stmt(op)
+    return describe_op(op)
+
+
+def sh_coq(op):
+    k = op[0]
+    if k == 'sopen':
+        _, nm, n, acc, lock, reclen = op
+        return '(COpen %d %s %s %s %s)' % (nm, z(n), L26.COQ_ACC[acc], L26.COQ_LOCK[lock], z(reclen))
+    if k == 'close':
+        return '(CClose %s)' % z(op[1])
+    if k in ('lock', 'unlock'):
+        return '(%s %s %s %s)' % ('CLock' if k == 'lock' else 'CUnlock', z(op[1]), opt(op[2]), opt(op[3]))
+    if k == 'field':
+        _, n, off, w, right, data = op
+        return '(CField %s %s %s %s %s)' % (z(n), z(off), z(w), 'true' if right else 'false', core.zl(data))
+    if k in ('put', 'get'):
+        return '(%s %s %s)' % ('CPut' if k == 'put' else 'CGet', z(op[1]), opt(op[2]))
+    return '(CQuery %s)' % z(op[1])
+
+
+def sh_decode(out, ops):
+    """-> per-op results, final lock table {n: entry}, [bytes of F1, F2], [buffers 1..3]."""
+    res = []
+    i = 0
+    for _ in ops:
+        if out[i] == 0:
+            n = out[i + 1]
+            res.append(('ok', out[i + 2:i + 2 + n]))
+            i += 2 + n
+        else:
+            res.append(('err', out[i], out[i + 1]))
+            i += 2
+    ents = {}
+    for n in (1, 2, 3):
+        if out[i] == 0:
+            i += 1
+            continue
+        name, mode, lock, acc, recpos, cnt = out[i + 1:i + 7]
+        i += 7
+        ents[n] = {'name': name, 'recpos': recpos, 'locks': [tuple(out[i + 2 * j:i + 2 * j + 2]) for j in range(cnt)]}
+        i += 2 * cnt
+    i += 2
+    files = []
+    for _ in range(2):
+        n = out[i]
+        files.append(bytes(out[i + 1:i + 1 + n]))
+        i += 1 + n
+    bufs = [bytes(out[i + 128 * j:i + 128 * j + 128]) for j in range(3)]
+    if i + 384 != len(out):
+        raise ValueError('trailing data')
+    return res, ents, files, bufs
+
+
+VARS = {1: 'A$', 2: 'B$', 3: 'C$'}
+
+
+def fv_stmt(op):
+    k = op[0]
+    if k == 'ffield':
+        return 'FIELD #1' + ''.join(', %d AS %s' % (w, VARS[v]) for w, v in op[1])
+    if k == 'flset':
+        return '%s %s=%r' % ('RSET' if op[2] else 'LSET', VARS[op[1]], bytes(op[3]))
+    if k == 'fmid':
+        return 'MID$(%s, %d%s)=%r' % (VARS[op[1]], op[2], '' if op[3] is None else ', %d' % op[3], bytes(op[4]))
+    if k == 'flet':
+        return '%s=%r' % (VARS[op[1]], bytes(op[2]))
+    return '%s #1, %d' % ('PUT' if k == 'fput' else 'GET', op[1])
+
+
+def fv_coq(op):
+    k = op[0]
+    if k == 'ffield':
+        return '(FField [%s])' % '; '.join('(%s, %d)' % (z(w), v) for w, v in op[1])
+    if k == 'flset':
+        return '(FLset %d %s %s)' % (op[1], 'true' if op[2] else 'false', core.zl(op[3]))
+    if k == 'fmid':
+        return '(FMid %d %s %s %s)' % (op[1], z(op[2]), opt(op[3]), core.zl(op[4]))
+    if k == 'flet':
+        return '(FLet %d %s)' % (op[1], core.zl(op[2]))
+    return '(%s %d)' % ('FPut' if k == 'fput' else 'FGet', op[1])
+
+
+def fv_decode(out, ops):
+    res = []
+    i = 0
+    for _ in ops:
+        r = (out[i], out[i + 1])
+        i += 2
+        vals = []
+        for _ in range(3):
+            n = out[i]
+            vals.append(bytes(out[i + 1:i + 1 + n]))
+            i += 1 + n
+        res.append((r, vals))
+    buf = bytes(out[i:i + 128])
+    i += 128
+    n = out[i]
+    data = bytes(out[i + 1:i + 1 + n])
+    if i + 1 + n != len(out):
+        raise ValueError('trailing data')
+    return res, buf, data
+
+
 class Ref(object):
     """The property as a reference: per file a dict record number -> bytes and the length written so far."""
 
@@ -119,7 +235,7 @@ class C25(core.Check):
     ID = 'C25'
     GEN = ['gen_locks']
     PROPS = 'props/C25.v'
-    MODEL_IMPORTS = ['gen.Gen_locks', 'model.Locks', 'model.RandomFile']
+    MODEL_IMPORTS = ['gen.Gen_locks', 'model.Locks', 'model.RandomFile', 'model.SharedFile', 'model.FieldVars']
     QUICK_CASES = 300
     THOROUGH_CASES = 2000
     TRUSTED = ['hand model model/RandomFile.v: the host stream (seek/read/write/tell of a Python binary file object '
@@ -155,6 +271,27 @@ class C25(core.Check):
             {'ops': [['open', 2, 1], ['get', 2, 0], ['get', 2, -1], ['get', 2, 2 ** 25], ['query', 2],
                      ['get', 2, 2 ** 25 + 2], ['query', 2], ['get', 2, 2 ** 25 + 3], ['put', 2, 2 ** 25 + 4],
                      ['get', 2, None], ['get', 2, 2 ** 24 + 1], ['query', 2], ['put', 2, 0]]},
+            # D25a: a PUT through #1 must be visible to a GET through #2; implicit GET after another number
+            # extended the file
+            {'k': 'sh', 'ops': [['sopen', 1, 1, '', '', 2], ['sopen', 1, 2, '', '', 2],
+                                ['field', 1, 0, 2, 0, ab], ['put', 1, 1], ['get', 2, 1], ['query', 2],
+                                ['field', 1, 0, 2, 0, cd], ['put', 1, 2], ['get', 2, 2], ['query', 2]]},
+            {'k': 'sh', 'ops': [['sopen', 1, 1, '', 'SHARED', 2], ['sopen', 1, 2, '', 'SHARED', 2],
+                                ['get', 2, 2], ['field', 1, 0, 2, 0, ab], ['put', 1, 1], ['field', 1, 0, 2, 0, cd],
+                                ['put', 1, 2], ['field', 1, 0, 2, 0, xy], ['put', 1, 3], ['get', 2, None],
+                                ['query', 2]]},
+            # a locked record: the refused PUT changes nothing; CLOSE releases the lock; different LEN per number
+            {'k': 'sh', 'ops': [['sopen', 1, 1, '', 'SHARED', 2], ['sopen', 1, 2, '', 'SHARED', 4],
+                                ['lock', 1, 2, 3], ['field', 2, 0, 4, 0, [49, 50, 51, 52]], ['put', 2, 1],
+                                ['put', 2, 2], ['get', 1, 2], ['get', 1, 3], ['close', 1], ['put', 2, 2],
+                                ['sopen', 1, 3, '', 'SHARED', 2], ['get', 3, 4], ['query', 3]]},
+            # FIELD variables: partition, overlapping redefinition, MID$=, LET detaches, several FIELD statements
+            {'k': 'fv', 'L': 6, 'ops': [['ffield', [[2, 1], [4, 2]]], ['flset', 1, 0, [97, 98, 99]],
+                                        ['flset', 2, 1, [49, 50]], ['fput', 1], ['ffield', [[1, 3], [3, 1]]],
+                                        ['flset', 1, 0, [120]], ['fmid', 2, 2, 2, [89, 90, 91]], ['flet', 2, [81, 82]],
+                                        ['flset', 2, 0, [122]], ['fmid', 3, 1, None, [33, 34]], ['fput', 2],
+                                        ['fget', 1], ['fmid', 1, 4, 1, [1]], ['fmid', 1, 0, 0, [1]],
+                                        ['ffield', [[100, 1], [29, 2]]], ['ffield', [[256, 3]]], ['fget', 2]]},
             # LOC above 2^24 is shown with 24 significant bits (K25a); implicit GET past record 2^25
             {'ops': [['open', 1, 2], ['get', 1, 2 ** 24 - 1], ['query', 1], ['get', 1, None], ['query', 1],
                      ['get', 1, None], ['query', 1], ['get', 1, None], ['query', 1], ['get', 1, 2 ** 24 + 3],
@@ -244,12 +381,17 @@ class C25(core.Check):
 
     def gen_cases(self, n):
         hist = {'open': 0, 'field': 0, 'put': 0, 'get': 0, 'query': 0, 'close': 0}
-        out = [self.gen_history(self.rng, hist) for _ in range(n)]
+        out = [self.gen_shared(self.rng, hist) if i % 4 == 2 else self.gen_fv(self.rng, hist) if i % 4 == 3
+               else self.gen_history(self.rng, hist) for i in range(n)]
         self.histogram = hist
         return out
 
     # ---- implementation
     def impl(self, case):
+        if case.get('k') == 'sh':
+            return self.impl_shared(case)
+        if case.get('k') == 'fv':
+            return self.impl_fv(case)
         d = common.tmpdir('c25')
         try:
             with common.new_session(devices={'C': d}, current_device='C:') as s:
@@ -336,15 +478,31 @@ class C25(core.Check):
         return [0, 3] + vals
 
     def model_term(self, case):
+        if case.get('k') == 'fv':
+            return '(ftrace (fv_init %d) [%s])' % (case['L'], '; '.join(fv_coq(o) for o in case['ops']))
+        if case.get('k') == 'sh':
+            return '(ctrace c_init [%s])' % '; '.join(sh_coq(o) for o in case['ops'])
         return '(wtrace w_init [%s])' % '; '.join(coq_op(o) for o in case['ops'])
 
     def describe(self, case):
+        if case.get('k') == 'fv':
+            return {'k': 'fv', 'L': case['L'], 'ops': case['ops'], 'basic': [fv_stmt(o) for o in case['ops']]}
+        if case.get('k') == 'sh':
+            return {'k': 'sh', 'ops': case['ops'], 'basic': [sh_stmt(o) for o in case['ops']]}
         return {'ops': case['ops'], 'basic': [describe_op(o) for o in case['ops']]}
 
     def undescribe(self, d):
-        return {'ops': d['ops']}
+        if d.get('k') == 'fv':
+            return {'k': 'fv', 'L': d['L'], 'ops': d['ops']}
+        return {'k': d['k'], 'ops': d['ops']} if d.get('k') else {'ops': d['ops']}
 
     def nontrivial(self, case, out):
+        if case.get('k') == 'fv':
+            return sum(1 for o in case['ops'] if o[0] in ('flset', 'fmid')) >= 2
+        if case.get('k') == 'sh':
+            res = sh_decode(out, case['ops'])[0]
+            nums = set(op[1] for op, r in zip(case['ops'], res) if op[0] in ('put', 'get') and r[0] == 'ok')
+            return len(nums) >= 2
         res, _ = decode(out, case['ops'])
         puts = sum(1 for op, r in zip(case['ops'], res) if op[0] == 'put' and r[0] == 'ok')
         gets = sum(1 for op, r in zip(case['ops'], res) if op[0] == 'get' and r[0] == 'ok')
@@ -352,6 +510,10 @@ class C25(core.Check):
 
     # ---- the property read on the observed behaviour: dict of records per file
     def oracle(self, case, out):
+        if case.get('k') == 'fv':
+            return self.oracle_fv(case, out)
+        if case.get('k') == 'sh':
+            return self.oracle_shared(case, out)
         try:
             res, fin = decode(out, case['ops'])
         except Exception:
@@ -406,6 +568,291 @@ class C25(core.Check):
                 return 'FIELD buffer of #%d differs from the reference' % n
         return None
 
+
+    # ---- several file numbers on one random file (shared bytes, own pointers / buffers / record lengths)
+    def impl_shared(self, case):
+        d = common.tmpdir('c25s')
+        try:
+            with common.new_session(devices={'C': d}, current_device='C:') as s:
+                s.execute('REM')
+                imp = s._impl
+                errs = []
+                orig = imp._handle_error
+
+                def hook(e):
+                    errs.append(e.err)
+                    return orig(e)
+                imp._handle_error = hook
+
+                def run(text):
+                    del errs[:]
+                    with core.time_limit(60):
+                        s.execute(text)
+                    return errs[0] if errs else 0
+
+                def ev(text):
+                    del errs[:]
+                    with core.time_limit(60):
+                        v = s.evaluate(text)
+                    return (errs[0], None) if errs else (0, v)
+                out = []
+                for op in case['ops']:
+                    try:
+                        if op[0] in ('sopen', 'close', 'lock', 'unlock'):
+                            e = run(sh_stmt(op))
+                            out += [1, e] if e else [0, 0]
+                        else:
+                            out += self.one(s, imp, run, ev, op)
+                    except Exception as e:
+                        out += common.canon_exc(e)
+                out += L26.C26.observe(imp, d)
+                for f in imp.files.files.values():
+                    f._fhandle.flush()      # observation only: what is on disk once every handle has flushed
+                for nm in ('F1', 'F2'):
+                    p = os.path.join(d, nm)
+                    b = open(p, 'rb').read() if os.path.exists(p) else b''
+                    out += [len(b)] + list(b)
+                for n in (1, 2, 3):
+                    out += list(bytes(imp.memory.fields[n].view_buffer()[:128]))
+            return out
+        finally:
+            common.rmtree(d)
+
+    def gen_shared(self, rng, hist):
+        nums = rng.sample([1, 2, 3], rng.choice([2, 3, 3]))
+        lock = rng.choice(['SHARED', 'SHARED', ''])
+        L0 = rng.choice([1, 2, 2, 3, 4, 8, 16])
+        same = rng.random() < 0.7
+        L = {n: (L0 if same else rng.choice([1, 2, 3, 4, 6, 8])) for n in nums}
+        ops = []
+        for n in nums:
+            nm = 1 if rng.random() < 0.9 else 2
+            ops.append(['sopen', nm, n, '', lock, L[n]])
+        held = []
+        for _ in range(rng.randint(6, 22)):
+            n = rng.choice(nums)
+            r = rng.random()
+            if r < 0.28:
+                w = L[n]
+                data = common.rand_bytes(rng, rng.choice([w, w, max(0, w - 1), w + 1]))
+                ops.append(['field', n, 0, w, int(rng.random() < 0.2), data])
+                hist['field'] += 1
+            elif r < 0.74:
+                k = 'put' if rng.random() < 0.5 else 'get'
+                pos = None if rng.random() < 0.3 else rng.randint(1, 8)
+                ops.append([k, n, pos])
+                hist[k] += 1
+            elif r < 0.82:
+                a = rng.randint(1, 7)
+                b = a + rng.randint(0, 2)
+                ops.append(['lock', n, a, b])
+                held.append((n, a, b))
+            elif r < 0.88 and held:
+                m, a, b = rng.choice(held)
+                ops.append(['unlock', m, a, b])
+            elif r < 0.94:
+                ops.append(['query', n])
+                hist['query'] += 1
+            elif r < 0.97:
+                ops.append(['close', n])
+                hist['close'] += 1
+            else:
+                ops.append(['sopen', 1, n, rng.choice(['', 'R', 'W']), lock, L[n]])
+                hist['open'] += 1
+        hist['shared'] = hist.get('shared', 0) + 1
+        return {'k': 'sh', 'ops': ops}
+
+    def oracle_shared(self, case, out):
+        """byte reference per file NAME; record length, last record and FIELD buffer per file number.  Which
+        accesses the locks refuse is C26's business: here an access that is refused must change nothing."""
+        try:
+            res, ents, files, bufs = sh_decode(out, case['ops'])
+        except Exception:
+            return 'trace cannot be decoded'
+        data = {1: bytearray(), 2: bytearray()}
+        num = {}
+        buf = {n: bytearray(128) for n in (1, 2, 3)}
+        for i, (op, r) in enumerate(zip(case['ops'], res)):
+            where = 'step %d %s: ' % (i + 1, sh_stmt(op))
+            k, ok = op[0], r[0] == 'ok'
+            if k == 'sopen':
+                if ok:
+                    num[op[2]] = {'name': op[1], 'L': op[5], 'loc': 0}
+                continue
+            n = op[1]
+            if k == 'close':
+                num.pop(n, None)
+            elif k == 'field' and ok:
+                _, _, off, w, right, dat = op
+                dd = bytes(dat)[:w]
+                buf[n][off:off + w] = dd.rjust(w) if right else dd.ljust(w)
+            elif k in ('put', 'get') and n in num:
+                f = num[n]
+                rec = op[2] if op[2] is not None else f['loc'] + 1
+                f['loc'] = rec - 1 if not ok else rec      # _set_record_pos happens before the lock check
+                if not ok:
+                    if r not in (('err', 1, 70), ('err', 1, 75)):
+                        return where + 'unexpected result %s' % (r,)
+                    continue
+                b, Ln = data[f['name']], f['L']
+                if k == 'put':
+                    if len(b) < (rec - 1) * Ln:
+                        b.extend(bytes((rec - 1) * Ln - len(b)))
+                    b[(rec - 1) * Ln:rec * Ln] = buf[n][:Ln]
+                else:
+                    want = bytes(b[(rec - 1) * Ln:rec * Ln]).ljust(Ln, b'\0')
+                    if bytes(r[1]) != want:
+                        return where + 'GET of record %d through #%d returned %r, the file holds %r' % (
+                            rec, n, bytes(r[1]), want)
+                    buf[n][:Ln] = want
+            elif k == 'query' and n in num and ok:
+                f = num[n]
+                if r[1][0] != trunc24(len(data[f['name']])):
+                    return where + 'LOF = %d, the file has %d bytes' % (r[1][0], len(data[f['name']]))
+                if r[1][1] != trunc24(f['loc']):
+                    return where + 'LOC = %d, last record accessed through this number = %d' % (r[1][1], f['loc'])
+        for nm in (1, 2):
+            if files[nm - 1] != bytes(data[nm]):
+                return 'file F%d on disk is %r, the records written are %r' % (nm, files[nm - 1], bytes(data[nm]))
+        for n in (1, 2, 3):
+            if bufs[n - 1] != bytes(buf[n]):
+                return 'FIELD buffer of #%d differs from the reference' % n
+        if set(ents) != set(num):
+            return 'lock table has entries %s, open file numbers are %s' % (sorted(ents), sorted(num))
+        return None
+
+    # ---- FIELD variables: attached / detached strings, LSET / RSET / MID$= / LET, overlapping definitions
+    def impl_fv(self, case):
+        d = common.tmpdir('c25f')
+        try:
+            with common.new_session(devices={'C': d}, current_device='C:') as s:
+                s.execute('OPEN "R1" FOR RANDOM AS 1 LEN=%d' % case['L'])
+                imp = s._impl
+                errs = []
+                orig = imp._handle_error
+
+                def hook(e):
+                    errs.append(e.err)
+                    return orig(e)
+                imp._handle_error = hook
+                out = []
+                for op in case['ops']:
+                    del errs[:]
+                    k = op[0]
+                    with core.time_limit(60):
+                        if k == 'ffield':
+                            s.execute(fv_stmt(op))
+                        elif k in ('fput', 'fget'):
+                            s.execute(fv_stmt(op))
+                        else:
+                            s.set_variable('D$', bytes(op[-1]))
+                            if k == 'flset':
+                                s.execute('%s %s=D$' % ('RSET' if op[2] else 'LSET', VARS[op[1]]))
+                            elif k == 'fmid':
+                                s.execute('MID$(%s, %d%s)=D$' % (VARS[op[1]], op[2],
+                                                                 '' if op[3] is None else ', %d' % op[3]))
+                            else:
+                                s.execute('%s=D$' % VARS[op[1]])
+                    out += [1, errs[0]] if errs else [0, 0]
+                    for v in (1, 2, 3):
+                        val = bytes(s.get_variable(VARS[v]))
+                        out += [len(val)] + list(val)
+                imp.files.files[1]._fhandle.flush()
+                out += list(bytes(imp.memory.fields[1].view_buffer()[:128]))
+                b = open(os.path.join(d, 'R1'), 'rb').read()
+                out += [len(b)] + list(b)
+            return out
+        finally:
+            common.rmtree(d)
+
+    def gen_fv(self, rng, hist):
+        L = rng.choice([2, 4, 6, 8, 12, 16])
+        ops = []
+        for _ in range(rng.randint(5, 16)):
+            r = rng.random()
+            v = rng.randint(1, 3)
+            if r < 0.25:
+                nv = rng.choice([1, 2, 2, 3])
+                vs = rng.sample([1, 2, 3], nv) if rng.random() < 0.85 else [rng.randint(1, 3) for _ in range(nv)]
+                rr = rng.random()
+                if rr < 0.5:            # a partition of the record
+                    cuts = sorted(rng.randint(0, L) for _ in range(nv - 1))
+                    ws = [b - a for a, b in zip([0] + cuts, cuts + [L])]
+                elif rr < 0.9:          # anything, overlapping earlier definitions
+                    ws = [rng.randint(0, L) for _ in range(nv)]
+                else:                   # overflow / bad width
+                    ws = [rng.choice([100, 129, 256, 60]) for _ in range(nv)]
+                ops.append(['ffield', [[w, x] for w, x in zip(ws, vs)]])
+            elif r < 0.5:
+                ops.append(['flset', v, int(rng.random() < 0.3), common.rand_bytes(rng, rng.randint(0, L + 2))])
+            elif r < 0.65:
+                ops.append(['fmid', v, rng.randint(0, L + 1), rng.choice([None, None, 0, 1, 2, 3, 256, rng.randint(0, L)]),
+                            common.rand_bytes(rng, rng.randint(0, 5))])
+            elif r < 0.75:
+                ops.append(['flet', v, common.rand_bytes(rng, rng.randint(0, 6))])
+            else:
+                ops.append(['fput' if rng.random() < 0.5 else 'fget', rng.randint(1, 4)])
+        hist['fieldvars'] = hist.get('fieldvars', 0) + 1
+        return {'k': 'fv', 'L': L, 'ops': ops}
+
+    def oracle_fv(self, case, out):
+        """reference: a bytearray buffer, variables as (offset, width) or own bytes, a dict of records."""
+        try:
+            res, fbuf, fdata = fv_decode(out, case['ops'])
+        except Exception:
+            return 'trace cannot be decoded'
+        L = case['L']
+        buf = bytearray(128)
+        var = {}
+        recs = {}
+
+        def val(v):
+            x = var.get(v, b'')
+            return bytes(buf[x[0]:x[0] + x[1]]) if isinstance(x, tuple) else x
+
+        def store(v, new):
+            x = var.get(v, b'')
+            if isinstance(x, tuple):
+                buf[x[0]:x[0] + x[1]] = new
+            else:
+                var[v] = new
+        for i, (op, (r, vals)) in enumerate(zip(case['ops'], res)):
+            where = 'step %d %s: ' % (i + 1, fv_stmt(op))
+            k = op[0]
+            if k == 'ffield':
+                off = 0
+                for w, v in op[1]:
+                    if not 0 <= w <= 255 or off + w > 128:
+                        break
+                    var[v] = (off, w)
+                    off += w
+            elif k == 'flset' and r == (0, 0):
+                n = len(val(op[1]))
+                dd = bytes(op[3])[:n]
+                store(op[1], dd.rjust(n) if op[2] else dd.ljust(n))
+            elif k == 'fmid' and r == (0, 0):
+                cur = bytearray(val(op[1]))
+                num = 255 if op[3] is None else op[3]
+                num = min(num, len(op[4]), len(cur) - (op[2] - 1))
+                if num > 0:
+                    cur[op[2] - 1:op[2] - 1 + num] = bytes(op[4])[:num]
+                    store(op[1], bytes(cur))
+            elif k == 'flet' and r == (0, 0):
+                var[op[1]] = bytes(op[2])
+            elif k == 'fput':
+                recs[op[1]] = bytes(buf[:L])
+            elif k == 'fget':
+                buf[:L] = recs.get(op[1], bytes(L))
+            for v in (1, 2, 3):
+                if vals[v - 1] != val(v):
+                    return where + '%s is %r, the buffer/variable relation gives %r' % (VARS[v], vals[v - 1], val(v))
+        if fbuf != bytes(buf):
+            return 'FIELD buffer differs from the reference at the end'
+        hw = max(recs) if recs else 0
+        want = b''.join(recs.get(kk, bytes(L)) for kk in range(1, hw + 1))
+        if fdata != want:
+            return 'file on disk is %r, the records PUT are %r' % (fdata, want)
+        return None
 
     # ---- known finding K25a: LOF()/LOC() are single-precision numbers
     K25A = [['open', 1, 2], ['get', 1, 2 ** 24 + 1], ['get', 1, None], ['query', 1]]
